@@ -51,6 +51,9 @@ void Shim::reset() {
   on_access = nullptr;
   on_readdir = nullptr;
   kill_cost_ms = 0;
+  virt_ino = false;
+  virt_of_real.clear();
+  virt_path.clear();
   on_sdbus = nullptr;
   fdmap()->clear();
 }
@@ -619,6 +622,23 @@ ssize_t write(int fd, const void* buf, size_t n) {
 }
 
 } // extern "C"
+
+// ----------------------------------------------------------------- fstat ---
+// only the inode number is touched, and only when the scenario asks for kernfs-style identities
+extern "C" {
+int fstat(int fd, struct stat* st) {
+  static auto real = reinterpret_cast<int (*)(int, struct stat*)>(dlsym(RTLD_NEXT, "fstat"));
+  int r = real(fd, st);
+  if (r == 0 && vp_shim_on && g.virt_ino) st->st_ino = g.virtOf(st->st_ino);
+  return r;
+}
+int fstat64(int fd, struct stat64* st) {
+  static auto real = reinterpret_cast<int (*)(int, struct stat64*)>(dlsym(RTLD_NEXT, "fstat64"));
+  int r = real(fd, st);
+  if (r == 0 && vp_shim_on && g.virt_ino) st->st_ino = g.virtOf(st->st_ino);
+  return r;
+}
+}
 
 // ---------------------------------------------------------------- sd-bus ---
 // systemd_restart talks to the system bus through these four entry points; in
